@@ -656,6 +656,62 @@ def r8_lx_option_follows_map(ctx):
         raise AnalysisError('no map load followed by a check_837_lx assignment was found in the driver')
 
 
+def r9_missing_trailer_sweep(ctx):
+    """at end of input every envelope still open is reported once, at its own level, with the code of a missing trailer
+    (SE: set code 2, GE: group code 3, IEA: interchange code 023) - decided by constant propagation through
+    X12Reader.cleanup for every stack of open envelopes (nothing, ISA, ISA/GS, ISA/GS/ST, a second interchange left
+    open inside the first)."""
+    from ..absint import traces, NotClosedTest
+    fn = ctx.func('x12file', 'X12Reader.cleanup')
+    g = ctx.cfg(fn)
+    WANT = {'ISA': ('_isa_error', '023'), 'GS': ('_gs_error', '3'), 'ST': ('_st_error', '2')}
+    full = (('ISA', 'i1'), ('GS', 'g1'), ('ST', 's1'))
+    bad = []
+    stacks = [full[:k] for k in range(4)] + [(('ISA', 'i1'), ('ISA', 'i2'), ('GS', 'g2'))]
+    for stack in stacks:
+        def key(c):
+            r, m = A.call_target(c)
+            return m if r == 'self' and m in ('_isa_error', '_gs_error', '_st_error', '_seg_error') else None
+        try:
+            res = traces(g, {'self.loops': stack}, key)
+        except NotClosedTest as e:
+            raise AnalysisError('X12Reader.cleanup cannot be decided for open envelopes %s: %s' % ([t for t, _ in stack], e))
+        want = sorted(WANT[t] for t, _ in stack)
+        for tr, _e in res:
+            got = sorted((a_[0], a_[1][0] if a_[1] else None) for a_ in tr)
+            if got != want:
+                bad.append('with %s open at end of input the reports are %s, expected %s' % ([t for t, _ in stack] or 'nothing', got, want))
+            # the message names the control number of the envelope it is about
+            for a_, (t, i) in zip(tr, stack):
+                if len(a_[1]) > 1 and isinstance(a_[1][1], str) and i not in a_[1][1] and len(bad) < 3:
+                    bad.append('the report for the open %s %s does not name it: %r' % (t, i, a_[1][1]))
+    yield Ob('x12file:X12Reader.cleanup reports every envelope left open, once, at its level', not bad, ctx.floc(fn), '' if not bad else bad[0], note='%d stacks' % len(stacks))
+
+
+def r10_popped_errors_reach_a_node(ctx):
+    """the context reader takes the reader's pending envelope errors (pop_errors) into a per-segment error list; they
+    reach the caller only if that list is attached to the node that is yielded.  In X12ContextReader.iter_segments every
+    way from a pop_errors() call to the end of the iteration passes the attachment (handle_errh_errors of that list): a
+    pop on a path that builds a tree instead throws the discrepancy away (must-pass-through on the CFG)."""
+    fn = ctx.func('x12context', 'X12ContextReader.iter_segments')
+    g = ctx.cfg(fn)
+    loops = [n for n in ast.walk(fn) if isinstance(n, ast.For) and path_of(n.iter) == 'self.src']
+    if len(loops) != 1:
+        raise AnalysisError('X12ContextReader.iter_segments: the segment loop was not found')
+    heads = [nd for nd in g.nodes if nd.kind == 'for' and nd.stmt is loops[0]]
+    pops = [nd for nd in g.nodes if nd.ast is not None and any(isinstance(c, ast.Call) and A.call_target(c)[1] == 'pop_errors' for c in g.walk_exprs(nd))]
+    if not pops or not heads:
+        raise AnalysisError('X12ContextReader.iter_segments: no pop_errors() call in the segment loop')
+
+    def attaches(nd):
+        return nd.ast is not None and any(isinstance(c, ast.Call) and A.call_target(c)[1] == 'handle_errh_errors' for c in g.walk_exprs(nd))
+    for p_ in pops:
+        path = g.find_path(p_, lambda n: n is heads[0] or n is g.exit, blocked=attaches, edge_ok=lambda a_, l, b_: l != 'exc')
+        yield Ob('x12context:X12ContextReader.iter_segments errors taken from the reader are attached to the yielded node', path is None, ctx.floc(fn, p_.stmt),
+                 '' if path is None else 'the iteration can end (line %s) after pop_errors() without handle_errh_errors(): an envelope discrepancy found while '
+                 'a tree is being built is reported by no node and is no longer pending in the reader' % ([n.lineno for n in path if n.lineno][-1:] or ['?'])[0])
+
+
 def r6_trailer_semantics(ctx):
     """what the reader reports at a trailer, decided by constant propagation through X12Reader._parse_segment for SE, GE and
     IEA over: the stack of open envelopes (well nested, a level left open, nothing open), a control number that does or
@@ -741,6 +797,8 @@ RULES = [
     Rule('C04.R3', '_int is total over str|None; no bare int() on run-time values in x12file', r3_int_total, floor=1),
     Rule('C04.R7', 'header bookkeeping decided by constant propagation: push, control-number reuse, counters of the level below', r7_header_semantics, floor=1),
     Rule('C04.R8', 'the reader option check_837_lx is switched with every map load, both ways (constant propagation)', r8_lx_option_follows_map, floor=4),
+    Rule('C04.R9', 'missing-trailer sweep at end of input decided by constant propagation over the stacks of open envelopes', r9_missing_trailer_sweep, floor=1),
+    Rule('C04.R10', 'context reader: popped reader errors always reach the yielded node (must-pass-through)', r10_popped_errors_reach_a_node, floor=1),
     Rule('C04.R6', 'trailer checks decided by constant propagation: stack shape x control number x declared count', r6_trailer_semantics, floor=2),
     Rule('C04.R5', 'shared with C01.R3/R5: no segment is damaged or lost at a buffer boundary', r5_shared_tokenizer, floor=6),
     Rule('C04.R4', 'pending reader errors are only removed by pop_errors, never per segment', r4_pending_errors_kept, floor=2),
